@@ -141,3 +141,31 @@ package sfnt
 //@     invariant res != nil && fresh(res) && forall k uint32 :: has(res, k) ==> seen(c, k) && has(s.newGid, c[k]) && res[k] == s.newGid[c[k]]
 //@     invariant forall k uint32 :: seen(c, k) && has(s.newGid, c[k]) ==> has(res, k)
 //@     invariant forall k uint32 :: seen(c, k) ==> has(c, k)
+
+// ---- frames (C16): read-only operations write only memory they allocate ----
+//@ assume func (o Outlines) NumGlyphs() (n int)
+//@   ensures n >= 0
+//@   modifies nothing
+
+//@ func (f *Font) NumGlyphs() (n int)   props: C16
+//@   requires f != nil && f.Outlines != nil
+//@   ensures n >= 0
+//@   modifies nothing
+
+// MakeGlyphNames: the returned list is freshly allocated and nothing that
+// existed before the call is written (frame-only contract: the absence of
+// panics depends on the validity of the font and is not claimed here).
+//@ func (f *Font) MakeGlyphNames() (names []string)   props: C16
+//@   opt only=frame
+//@   requires f != nil && f.Outlines != nil
+//@   ensures fresh(names)
+//@   modifies nothing
+//@   loop 10
+//@     invariant isnil(nn) || fresh(nn)
+//@     decreases *
+//@   loop 11
+//@     invariant isnil(nn) || fresh(nn)
+//@     decreases *
+//@   loop 12
+//@     invariant isnil(nn) || fresh(nn)
+//@     decreases *
